@@ -98,8 +98,14 @@ def r_cmp(F, R):
         comp_blocks = {bi for (bi, _, _) in comps}
         ret_ok = True
         why = []
-        for o in ctx.org.local(0):
-            t = tree(ctx, o)
+        from expr import ret_alts as _ret_alts, NONE as _NONE
+        direct = [tree(ctx, o) for o in ctx.org.local(0)]
+        if any(t_[0] == "call" and t_[1][0] in ("Option", "Result") and any(
+                x_[0] == "agg" and str(x_[1]).startswith("closure:") for x_ in t_[2]) for t_ in direct):
+            # the arms are closures handed to a combinator (`other.decode().map_or_else(|o| a.eq(o), ..)`):
+            # what the function returns is what they return
+            direct = [t_ for t_ in _ret_alts(ctx) if t_ != _NONE]
+        for t in direct:
             inner = t
             if inner[0] == "call" and inner[1][1] in ("unwrap", "expect") and b.name == "cmp":
                 inner = inner[2][0]
